@@ -132,7 +132,7 @@ package blob
 
 // skipPadding drops exactly the leading padding shares and records how many there were.
 //@ func (*parser).skipPadding
-//@   property C11
+//@   property C11 C20
 //@   nopanic
 //@   requires p != nil
 //@   modifies p
@@ -149,7 +149,7 @@ package blob
 // set positions the parser on the first blob of a run of shares: the leading padding is skipped and
 // counted into the blob's index, the blob's share count is read from its first share.
 //@ func (*parser).set
-//@   property C11
+//@   property C11 C20
 //@   nopanic
 //@   requires p != nil
 //@   modifies p
@@ -163,7 +163,7 @@ package blob
 
 // addShares moves shares into the parser until it holds p.length of them and hands back the rest.
 //@ func (*parser).addShares
-//@   property C11
+//@   property C11 C20
 //@   nopanic
 //@   requires p != nil
 //@   modifies p
@@ -191,7 +191,7 @@ package blob
 
 // parse turns the collected shares into a blob and stamps it with the parser's index.
 //@ func (*parser).parse
-//@   property C11
+//@   property C11 C20
 //@   nopanic
 //@   requires p != nil
 //@   ensures err == nil ==> result0 != nil && result0.index == p.index && len(p.shares) == p.length
